@@ -25,6 +25,48 @@ pub struct Delivery {
     pub rk: u64,
     pub content: DContent,
     pub pay: Option<PayD>,
+    /// structure-aware wire tampering of the serialised record value (see wire.rs)
+    pub tamper: Option<Tamper>,
+}
+
+#[derive(Clone, Debug)]
+pub struct Tamper {
+    /// the honest record whose subtrees are spliced in
+    pub other: DContent,
+    /// index of the node of this delivery's value tree (pre-order)
+    pub node: usize,
+    /// 'b' = the corresponding subtree of `other`; '0' '1' '2' = an arbitrary value of the same shape
+    pub variant: char,
+}
+
+/// tampered record value, or None when the node does not exist (in either tree)
+pub fn tamper_value(a: &[u8], b: &[u8], node: usize, variant: char) -> Option<Vec<u8>> {
+    use crate::wire;
+    if a.len() < 3 || b.len() < 3 {
+        return None;
+    }
+    let mut ta = wire::decode(&a[2..])?;
+    let tb = wire::decode(&b[2..])?;
+    let nodes = ta.nodes();
+    let path = nodes.get(node)?.clone();
+    let new = match variant {
+        'b' => {
+            let sub = tb.get(&path)?.clone();
+            if Some(&sub) == ta.get(&path) {
+                return None; // nothing to swap
+            }
+            sub
+        }
+        '0' => ta.get(&path)?.mutated(0),
+        '1' => ta.get(&path)?.mutated(1),
+        _ => ta.get(&path)?.mutated(2),
+    };
+    if !ta.set(&path, new) {
+        return None;
+    }
+    let mut out = a[..2].to_vec();
+    out.extend_from_slice(&wire::encode(&ta));
+    Some(out)
 }
 
 pub fn parse_delivery(ws: &[&str]) -> Option<Delivery> {
@@ -43,6 +85,7 @@ pub fn parse_delivery(ws: &[&str]) -> Option<Delivery> {
         rk: ws[2].parse().ok()?,
         content: parse_content(ws[3])?,
         pay: parse_pay(ws[4])?,
+        tamper: None,
     })
 }
 
@@ -201,7 +244,23 @@ impl World {
             }
         }
         let first_hash = built.as_ref().and_then(|b| b.chain.first().map(|c| c.0));
-        let record = build_record(&d.kind, d.rk, &d.content, built.as_ref(), d.client);
+        let mut record = build_record(&d.kind, d.rk, &d.content, built.as_ref(), d.client);
+        let mut tamper_na = false;
+        if let Some(t) = &d.tamper {
+            let addr_b = derived_key(&t.other).unwrap_or(d.rk);
+            let built_b = d.pay.as_ref().map(|p| build_pay(p, key_xorname(addr_b), self.salt + 100_000));
+            if let Some(b) = &built_b {
+                let mut g = self.stub.state.lock().expect("stub");
+                for (h, v, a) in &b.chain {
+                    g.answers.insert(*h, (*v, *a));
+                }
+            }
+            let rec_b = build_record(&d.kind, d.rk, &t.other, built_b.as_ref(), d.client);
+            match tamper_value(&record.value, &rec_b.value, t.node, t.variant) {
+                Some(v) => record.value = v,
+                None => tamper_na = true,
+            }
+        }
         let incoming_hash = sha3(&record.value);
         let client = d.client;
         let fut: Pin<Box<dyn Future<Output = Result<(), VerifNodeError>>>> = Box::pin(async move {
@@ -231,6 +290,12 @@ impl World {
                 reads: 0,
             },
         );
+        if tamper_na {
+            if let Some(inf) = self.inflight.get_mut(id) {
+                inf.done = Some("skip".into());
+            }
+            return;
+        }
         self.advance(id);
     }
 
